@@ -60,6 +60,7 @@ Inductive mode := Exactly | AtLeast.
 (* ------------------------------------------------------------------------------------------ *)
 Inductive sty :=
 | SBool | SInt | SBit
+| SChar                                        (* std.standard.character: '0' and '1' are also literals of it *)
 | SUInt                                        (* universal_integer *)
 | SErr                                         (* type mark that did not resolve *)
 | SEnum (u : N) (n : ident) (lits : list ident) (* u: number of the declaring design unit *)
@@ -69,7 +70,7 @@ Inductive sty :=
 
 Definition sty_eqb (a b : sty) : bool :=
   match a, b with
-  | SBool, SBool | SInt, SInt | SBit, SBit | SUInt, SUInt => true
+  | SBool, SBool | SInt, SInt | SBit, SBit | SChar, SChar | SUInt, SUInt => true
   | SEnum u n _, SEnum u' n' _ | SIntT u n, SIntT u' n'
   | SRec u n _, SRec u' n' _ | SArr u n _ _, SArr u' n' _ _ => (u =? u') && (n =? n')
   | _, _ => false
@@ -88,7 +89,8 @@ Record isig := ISig { is_name : ident; is_mode : omode; is_ty : sty; is_def : bo
 
 Inductive bkind :=
 | BObj (c : ocls) (m : omode) (t : sty)
-| BType (t : sty)                  (* type or subtype; t is the base type *)
+| BType (t : sty) (own : bool)     (* type (own = true) or subtype; t is the base type *)
+| BDeferred (t : sty)              (* deferred constant before its full declaration: not yet usable *)
 | BLit (t : sty)                   (* enumeration literal *)
 | BFun (ps : list psig) (ret : sty)
 | BProc (ps : list psig)
@@ -124,7 +126,7 @@ Definition home_eqb (a b : option (ident * ident)) : bool :=
 Definition same_decl (a b : binding) : bool :=
   home_eqb (b_home a) (b_home b) &&
   match b_kind a, b_kind b with
-  | BObj _ _ _, BObj _ _ _ | BType _, BType _ | BComp _ _, BComp _ _ => true
+  | BObj _ _ _, BObj _ _ _ | BType _ _, BType _ _ | BComp _ _, BComp _ _ | BDeferred _, BDeferred _ => true
   | x, y => same_profile x y
   end.
 
@@ -175,6 +177,13 @@ Definition declare (G : env) (o : occ) (k : bkind) : res env :=
   guard (negb (existsb (clash k) (e_cur G x))) (o_nid o) Duplicate ;;;
   guard (negb (existsb (clash k) (e_vis G x))) (o_nid o) Conservative ;;;
   Ok (bind_raw G x (Bnd k (e_home G))).
+(* a deferred constant becomes an ordinary constant at its full declaration (and for the users of the package) *)
+Definition undefer (b : binding) : binding :=
+  match b_kind b with BDeferred t => Bnd (BObj KConst MNone t) (b_home b) | _ => b end.
+Definition fcomplete (x : ident) (m : fmap) : fmap := fun y => if y =? x then map undefer (m y) else m y.
+Definition complete_deferred (G : env) (x : ident) : env :=
+  Env (fcomplete x (e_vis G)) (fcomplete x (e_cur G)) (e_libs G) (e_uid G) (e_home G) (e_ret G) (e_done G).
+Definition undefer_all (m : fmap) : fmap := fun y => map undefer (m y).
 (* the environment a declaration produces when the verdict is not of interest *)
 Definition declare_env (G : env) (o : occ) (k : bkind) : env := bind_raw G (o_id o) (Bnd k (e_home G)).
 
@@ -203,18 +212,22 @@ Definition genv := list gentry.
 
 Definition is_arch (k : gkind) : bool := match k with GArch _ | GBody => true | _ => false end.
 (* primary units (and package instances) of a library share one name space *)
-Fixpoint find_unit (G : genv) (l n : ident) : option gkind :=
+Fixpoint find_unit_ (G : genv) (l n : ident) : option gkind :=
   match G with
   | [] => None
   | g :: r => if (g_lib g =? l) && (g_name g =? n) && negb (is_arch (g_kind g)) then Some (g_kind g)
-              else find_unit r l n
+              else find_unit_ r l n
   end.
-Fixpoint find_arch (G : genv) (l e a : ident) : bool :=
+Definition find_unit (G : genv) (l n : ident) : option gkind :=
+  if n =? id_undeclared then None else find_unit_ G l n.
+Fixpoint find_arch_ (G : genv) (l e a : ident) : bool :=
   match G with
   | [] => false
   | g :: r => ((g_lib g =? l) && (g_name g =? a) &&
-               match g_kind g with GArch e' => e' =? e | _ => false end) || find_arch r l e a
+               match g_kind g with GArch e' => e' =? e | _ => false end) || find_arch_ r l e a
   end.
+Definition find_arch (G : genv) (l e a : ident) : bool :=
+  negb (a =? id_undeclared) && find_arch_ G l e a.
 Definition exports_of (k : gkind) : option fmap :=
   match k with GPkg ex _ _ => Some ex | GInst ex => Some ex | _ => None end.
 
@@ -255,7 +268,7 @@ Definition vis_occ (G : env) (o : occ) : res (list binding) :=
 
 Definition type_of_bindings (bs : list binding) : option sty :=
   match bs with
-  | [b] => match b_kind b with BType t => Some t | _ => None end
+  | [b] => match b_kind b with BType t _ => Some t | _ => None end
   | _ => None
   end.
 Definition resolve_tmark (G : env) (t : tmark) : res sty :=
@@ -276,8 +289,8 @@ Definition sty_name (t : sty) : option ident :=
   match t with SEnum _ n _ | SIntT _ n | SRec _ n _ | SArr _ n _ _ => Some n | _ => None end.
 Definition ops_visible (G : env) (t : sty) : bool :=
   match sty_name t with
-  | None => match t with SErr => false | _ => true end
-  | Some n => existsb (fun b => match b_kind b with BType t' => sty_eqb t t' | _ => false end) (vis G n)
+  | None => match t with SErr => false | _ => true end   (* predefined types *)
+  | Some n => existsb (fun b => match b_kind b with BType t' true => sty_eqb t t' | _ => false end) (vis G n)
   end.
 
 (* ------------------------------------------------------------------------------------------ *)
@@ -362,7 +375,7 @@ Definition op_class_ok (op : binop) (t : sty) : bool :=
   | OAnd | OOr => match t with SBool | SBit => true | _ => false end
   | OAdd | OSub | OMul => is_int t
   | OEq | ONe => match t with SErr => false | _ => true end
-  | OLt => is_int t || match t with SEnum _ _ _ | SBool | SBit => true | _ => false end
+  | OLt => is_int t || match t with SEnum _ _ _ | SBool | SBit | SChar => true | _ => false end
   end.
 Definition op_result (op : binop) (t : sty) : sty :=
   match op with OEq | ONe | OLt => SBool | _ => t end.
@@ -423,7 +436,7 @@ Definition callee_bindings (G : env) (f : fname) : res (list binding) :=
 Fixpoint interp (G : env) (e : expr) {struct e} : res (list sty) :=
   match e with
   | EInt _ _ => Ok [SUInt]
-  | EBit _ _ => Ok [SBit]
+  | EBit _ _ => Ok [SBit; SChar]
   | ENam n => interp_name G n
   | ECall f a =>
       bs <- callee_bindings G f ;;
@@ -764,31 +777,31 @@ Definition check_decl (r : region) (obl : list obligation) (G : env) (d : decl) 
       match td with
       | TDEnum lits =>
           guard (match lits with [] => false | _ => true end) (o_nid o) Other ;;;
-          G' <- declare G o (BType t) ;; declare_lits G' t lits
-      | TDInt lo hi => guard (lo <=? hi) (o_nid o) Other ;;; declare G o (BType t)
+          G' <- declare G o (BType t true) ;; declare_lits G' t lits
+      | TDInt lo hi => guard (lo <=? hi) (o_nid o) Other ;;; declare G o (BType t true)
       | TDRec fs =>
           guard (match fs with [] => false | _ => true end) (o_nid o) Other ;;;
           check_list (fun f => resolve_tmark G (snd f) ;;;
                                guard (negb (o_id (fst f) =? id_undeclared)) (o_nid (fst f)) Conservative) fs ;;;
           guard (nodup_idents (map (fun f => o_id (fst f)) fs)) (o_nid o) Duplicate ;;;
-          declare G o (BType t)
+          declare G o (BType t true)
       | TDArr len el =>
           guard (1 <=? len) (o_nid o) Other ;;;
-          resolve_tmark G el ;;; declare G o (BType t)
+          resolve_tmark G el ;;; declare G o (BType t true)
       end
   | DSubtype o t rng =>
       ty <- resolve_tmark G t ;;
       guard (match rng with Some (lo, hi) => is_int ty && (lo <=? hi) | None => true end) (o_nid o) Other ;;;
-      declare G o (BType ty)
+      declare G o (BType ty false)
   | DConst o t (Some e) =>
       ty <- resolve_tmark G t ;;
       root G ty e ;;;
       if existsb (ob_eqb (o_id o, [], Some ty)) obl
       then guard (negb (existsb (ob_eqb (o_id o, [], Some ty)) (e_done G))) (o_nid o) Duplicate ;;;
-           Ok (set_done G ((o_id o, [], Some ty) :: e_done G))
+           Ok (complete_deferred (set_done G ((o_id o, [], Some ty) :: e_done G)) (o_id o))
       else declare G o (BObj KConst MNone ty)
   | DConst o t None =>
-      ty <- resolve_tmark G t ;; declare G o (BObj KConst MNone ty)
+      ty <- resolve_tmark G t ;; declare G o (BDeferred ty)
   | DSignal o t i =>
       ty <- resolve_tmark G t ;; check_oinit G ty i ;;; declare G o (BObj KSig MNone ty)
   | DFunDecl o ps rt =>
@@ -885,7 +898,7 @@ Fixpoint check_formals (chk : isig -> actual -> res unit) (unit_nid : nid) (m : 
   | f :: r =>
       match actual_for m k (is_name f) with
       | [a] => chk f a
-      | [] => guard (is_def f || match is_mode f with MOut => true | _ => false end) unit_nid MissingAssoc
+      | [] => guard (is_def f || match is_mode f with MOut | MInOut => true | _ => false end) unit_nid MissingAssoc
       | _ => Bad unit_nid Other
       end ;;;
       check_formals chk unit_nid m (S k) r
@@ -962,7 +975,7 @@ Definition import_all (ex : fmap) (m : fmap) : fmap := fun y => fimports y (ex y
 Definition only_lits (bs : list binding) : list binding :=
   filter (fun b => match b_kind b with BLit _ => true | _ => false end) bs.
 Definition lits_of_bindings (bs : list binding) : list ident :=
-  flat_map (fun b => match b_kind b with BType (SEnum _ _ lits) => lits | _ => [] end) bs.
+  flat_map (fun b => match b_kind b with BType (SEnum _ _ lits) true => lits | _ => [] end) bs.
 (* `use l.p.x`: the declarations named x and, for an enumeration type, its literals (VHDL-2008 12.4; the
    predefined operators follow the type, see ops_visible) *)
 Definition import_item (ex : fmap) (x : ident) (m : fmap) : fmap :=
@@ -1023,13 +1036,13 @@ Definition check_unit (md : mode) (GE : genv) (LIBS : list ident) (lib : ident) 
       fresh_unit GE lib o ;;;
       G0 <- check_ctx GE LIBS (env0 uid) (u_ctx u) ;;
       G1 <- check_decls md GE RPkg [] (set_home G0 (Some (lib, o_id o))) ds ;;
-      Ok (GEntry lib (o_id o) (GPkg (e_cur G1) G1 (flat_map (decl_obligation GE G1) ds)))
+      Ok (GEntry lib (o_id o) (GPkg (undefer_all (e_cur G1)) G1 (flat_map (decl_obligation GE G1) ds)))
   | UGen o gs ds =>
       fresh_unit GE lib o ;;;
       G0 <- check_ctx GE LIBS (env0 uid) (u_ctx u) ;;
       Gg <- declare_ifaces md GE KConst (set_home G0 (Some (lib, o_id o))) gs ;;
       G1 <- check_decls md GE RGen [] Gg ds ;;
-      Ok (GEntry lib (o_id o) (GGen (map (iface_sig GE Gg) gs) (e_cur G1) G1 (flat_map (decl_obligation GE G1) ds)))
+      Ok (GEntry lib (o_id o) (GGen (map (iface_sig GE Gg) gs) (undefer_all (e_cur G1)) G1 (flat_map (decl_obligation GE G1) ds)))
   | UBody o ds =>
       match (if o_id o =? id_undeclared then None else find_unit GE lib (o_id o)) with
       | Some (GPkg _ inner obl) | Some (GGen _ _ inner obl) =>
